@@ -77,7 +77,7 @@ class RecordLoop:
             if len(defs) == len(all_defs) and len({d[0] for d in defs}) == 1:
                 return defs[0][0]
         if isinstance(expr, ast.Call) and isinstance(expr.func, ast.Attribute) \
-                and expr.func.attr == 'strip' and not expr.args:
+                and expr.func.attr in ('strip', 'rstrip', 'lstrip') and not expr.args:
             return self.slice_of(expr.func.value)
         return None
 
@@ -212,7 +212,8 @@ def check_terminus_latch(ctx, rule, rl):
                 sides = [t.left, t.comparators[0]]
                 lits = [x.value for x in sides if isinstance(x, ast.Constant)]
                 recs = [x for x in sides if rl.slice_of(x) == (0, 6)]
-                return lits == [value] and len(recs) == 1
+                return len(lits) == 1 and isinstance(lits[0], str) \
+                    and lits[0].strip() == value.strip() and len(recs) == 1
             return False
         return pred
     s_model = rearmed_under(tag_is('MODEL '))
@@ -222,6 +223,22 @@ def check_terminus_latch(ctx, rule, rl):
            'start)', rl.mod, s_model or rl.loop)
     ctx.ob(rule, 'latch:re-armed-on-TER', s_ter is not None,
            'a TER record re-arms the N-terminus latch', rl.mod, s_ter or rl.loop)
+    # a TER record is often written without padding ("TER" + newline): the test
+    # must not depend on columns 4-6 being blanks
+    unpadded_ok = False
+    if s_ter is not None:
+        for t, p, _k in guards_of(s_ter, rl.loop):
+            if p and tag_is('TER   ')(t):
+                sides = [t.left, t.comparators[0]]
+                lit = [x.value for x in sides if isinstance(x, ast.Constant)][0]
+                rec = [x for x in sides if not isinstance(x, ast.Constant)][0]
+                stripped = isinstance(rec, ast.Call) and isinstance(rec.func, ast.Attribute) \
+                    and rec.func.attr in ('strip', 'rstrip') and not rec.args
+                unpadded_ok = stripped and lit == 'TER'
+    ctx.ob(rule, 'latch:TER-recognised-unpadded', unpadded_ok,
+           'the TER test compares the stripped record name with "TER", so that a TER line '
+           'shorter than six columns ("TER\\n", as many programs write it) ends the chain too',
+           rl.mod, s_ter or rl.loop)
     s_oxt = next((s for s in rearm if s._parent is term_c[0]._parent), None)
     ctx.ob(rule, 'latch:re-armed-on-terminal-oxygen', s_oxt is not None,
            'a residue carrying a terminal oxygen re-arms the latch (next residue starts a chain)',
@@ -316,3 +333,37 @@ def check_raw_record_fields(ctx, rule, rl):
            'record fields are compared as raw columns (%d slice locals; transformed: %s)'
            % (len(rl.aliases), {k: v[0] for k, v in bad}), rl.mod,
            bad[0][1][1] if bad else rl.loop)
+
+
+def check_membership_params_materialised(ctx, rule, rl):
+    """A parameter of the record generator that is tested with ``in`` for every
+    record must be a real container by then: a parameter declared as a mere
+    Iterable (a generator, ``iter(list)``, a ``filter`` object are Iterables)
+    is consumed by the first membership tests, after which every record fails
+    the test.  Either the annotation promises a container, or the function
+    materialises the argument before the loop."""
+    import re
+    tested = {}
+    for node in walk_no_nested(rl.loop):
+        if isinstance(node, ast.Compare) and isinstance(node.ops[0], (ast.In, ast.NotIn)) \
+                and isinstance(node.comparators[0], ast.Name) and node.comparators[0].id in rl.params:
+            tested.setdefault(node.comparators[0].id, node)
+    args = {a.arg: a for a in rl.fn.args.args + rl.fn.args.kwonlyargs}
+    for name, site in sorted(tested.items()):
+        ann = norm(args[name].annotation) if args[name].annotation is not None else ''
+        container = bool(re.search(r'\b(List|Tuple|Set|FrozenSet|Sequence|Collection|Container|'
+                                   r'AbstractSet|list|tuple|set|frozenset|str)\b', ann)) \
+            and 'Iterable' not in ann and 'Iterator' not in ann
+        materialised = False
+        for stmt in rl.fn.body:
+            if stmt is rl.loop:
+                break
+            for n in ast.walk(stmt):
+                if isinstance(n, ast.Assign) and norm(n.targets[0]) == name and isinstance(n.value, ast.Call) \
+                        and call_name(n.value) in ('tuple', 'list', 'set', 'frozenset') \
+                        and [norm(a) for a in n.value.args] == [name]:
+                    materialised = True
+        ctx.ob(rule, 'membership-parameter-is-a-container:' + name, container or materialised,
+               'parameter %s (annotated %s) is tested with `in` for every record: it is declared as '
+               'a container or materialised before the loop (a one-shot iterable would be used up '
+               'by the first records)' % (name, ann or 'nothing'), rl.mod, site)
